@@ -4,8 +4,11 @@
 package hio
 
 import (
+	"bufio"
+	"bytes"
 	"errors"
 	"io"
+	"strings"
 )
 
 // FragReader is an io.Reader over a byte string that follows a fragmentation
@@ -95,4 +98,34 @@ func (w *RecWriter) Bytes() []byte {
 		out = append(out, c...)
 	}
 	return out
+}
+
+// SourceKinds are the concrete reader types a decoder may be handed. The
+// harness's own fragmenting reader comes first; the others are what callers
+// really pass (the library itself wraps payloads in bytes.Buffer and
+// bytes.Reader), and code which looks at the concrete type of its reader must
+// not behave differently for any of them.
+var SourceKinds = []string{"frag", "frag", "frag", "buffer", "buffer", "reader", "strings", "bufio"}
+
+// Source builds a byte source of the given kind over data and a function
+// reporting how many bytes of data have been taken from it so far (for the
+// "bufio" kind: taken by the consumer, not by the buffer's read-ahead).
+func Source(kind string, data []byte, chunks []int, eofWith bool) (io.Reader, func() int) {
+	switch kind {
+	case "buffer":
+		b := bytes.NewBuffer(append([]byte{}, data...))
+		return b, func() int { return len(data) - b.Len() }
+	case "reader":
+		r := bytes.NewReader(data)
+		return r, func() int { return len(data) - r.Len() }
+	case "strings":
+		r := strings.NewReader(string(data))
+		return r, func() int { return len(data) - r.Len() }
+	case "bufio":
+		f := NewFragReader(data, chunks, eofWith)
+		b := bufio.NewReaderSize(f, 16)
+		return b, func() int { return f.Pos - b.Buffered() }
+	}
+	f := NewFragReader(data, chunks, eofWith)
+	return f, func() int { return f.Pos }
 }
